@@ -98,6 +98,7 @@ type history struct {
 	tainted   map[channel.Key]bool            // keys excluded from further checks (already reported / failed non-tx request)
 	stuck     map[channel.Key]bool            // keys whose metadata never converged across nodes
 	newKeys   map[channel.Key]bool            // keys that entered metadata in the current step
+	idxStuck  map[string]bool                 // "node|name": name-index lookups on that node never agreed with its own listing
 	attempted int
 	maxLocal  uint32
 	fresh     int
@@ -112,7 +113,7 @@ func newHistory(h *harness.H, layer string, c int, r *prng.R) *history {
 	return &history{h: h, layer: layer, c: c, r: r,
 		everSeen: map[channel.Key]string{}, everMeta: map[channel.Key]bool{},
 		leftAt: map[channel.Key]string{}, deleted: map[channel.Key]string{},
-		reported: map[string]bool{}, tainted: map[channel.Key]bool{}, stuck: map[channel.Key]bool{}}
+		reported: map[string]bool{}, tainted: map[channel.Key]bool{}, stuck: map[channel.Key]bool{}, idxStuck: map[string]bool{}}
 }
 
 func newRandomHistory(h *harness.H, c int, r *prng.R) *history {
@@ -590,9 +591,21 @@ func (hs *history) quiesce(ctx context.Context) map[channel.Key]channel.Channel 
 				if len(hs.steps) > 0 {
 					last = hs.steps[len(hs.steps)-1]
 				}
-				fmt.Printf("NOTE: C15 %s case %d: nodes' metadata views still differ on keys %v %s after the last request (%s via node %d); continuing on the leaseholders' views\n",
-					hs.layer, hs.c, ks, quiesceWatchdog, last.Op, last.Via)
+				var detail strings.Builder
+				for _, k := range ks {
+					fmt.Fprintf(&detail, " key %d:", k)
+					for _, nk := range hs.nodes {
+						if ch, ok := views[nk][k]; ok {
+							fmt.Fprintf(&detail, " n%d=%q", nk, ch.Name)
+						} else {
+							fmt.Fprintf(&detail, " n%d=absent", nk)
+						}
+					}
+				}
+				fmt.Printf("NOTE: C15 %s case %d: nodes' metadata views still differ %s after the last request (%s via node %d):%s; continuing on the leaseholders' views\n",
+					hs.layer, hs.c, quiesceWatchdog, last.Op, last.Via, detail.String())
 			}
+			hs.quiesceNameIndex(ctx, views)
 			auth := map[channel.Key]channel.Channel{}
 			for _, nk := range hs.nodes {
 				for k, ch := range views[nk] {
@@ -602,6 +615,77 @@ func (hs *history) quiesce(ctx context.Context) map[channel.Key]channel.Channel 
 				}
 			}
 			return auth
+		}
+		time.Sleep(2 * time.Millisecond)
+	}
+}
+
+// nameIndexWatchdog bounds the wait for every node's name index (the structure name
+// validation consults) to agree with that node's own channel listing. Index maintenance
+// is an in-process asynchronous observer; it normally lags by microseconds.
+const nameIndexWatchdog = 3 * time.Second
+
+// quiesceNameIndex waits until, on every node, a by-name lookup of every current (and
+// every just-removed) name returns exactly the keys that node's listing has under that
+// name. A lookup that still disagrees when the watchdog fires is recorded (NOTE +
+// inconclusive) and ignored from then on; the monitor keeps judging name uniqueness,
+// because a duplicate name created after the full wait has no timing explanation.
+func (hs *history) quiesceNameIndex(ctx context.Context, views map[node.Key]map[channel.Key]channel.Channel) {
+	deadline := time.Now().Add(nameIndexWatchdog)
+	for {
+		var bad []string
+		for _, nk := range hs.nodes {
+			want := map[string]map[channel.Key]bool{}
+			for k, ch := range views[nk] {
+				if want[ch.Name] == nil {
+					want[ch.Name] = map[channel.Key]bool{}
+				}
+				want[ch.Name][k] = true
+			}
+			for _, ch := range hs.meta { // names that may just have been removed/renamed away
+				if want[ch.Name] == nil {
+					want[ch.Name] = map[channel.Key]bool{}
+				}
+			}
+			names := make([]string, 0, len(want))
+			for nm := range want {
+				names = append(names, nm)
+			}
+			sort.Strings(names)
+			for _, nm := range names {
+				id := fmt.Sprintf("%d|%s", nk, nm)
+				if hs.idxStuck[id] || channel.ValidateName(nm) != nil {
+					continue // non-literal names are matched by scan, not by the index
+				}
+				var got []channel.Channel
+				err := hs.cluster.Nodes[nk].Channel.NewRetrieve().Where(channel.MatchNames(nm)).Entries(&got).Exec(ctx, nil)
+				ok := err == nil && len(got) == len(want[nm])
+				for _, g := range got {
+					if !want[nm][g.Key()] {
+						ok = false
+					}
+				}
+				if !ok {
+					bad = append(bad, id)
+				}
+			}
+		}
+		if len(bad) == 0 {
+			return
+		}
+		if time.Now().After(deadline) {
+			for _, id := range bad {
+				hs.idxStuck[id] = true
+			}
+			hs.h.Inconclusive("name-index-never-agreed-with-listing")
+			hs.h.Count("stale_name_index_entries", len(bad))
+			last := step{}
+			if len(hs.steps) > 0 {
+				last = hs.steps[len(hs.steps)-1]
+			}
+			fmt.Printf("NOTE: C15 %s case %d: by-name lookups still disagree with the node's own listing %s after the last request (%s via node %d) for node|name %v\n",
+				hs.layer, hs.c, nameIndexWatchdog, last.Op, last.Via, bad)
+			return
 		}
 		time.Sleep(2 * time.Millisecond)
 	}
